@@ -61,6 +61,11 @@ def run(prog, rep):
                 rep.instance('R1', f'{fq}: for {var} in {norm(it, 40)}: ... {dname} += {arg}; used by {norm(use, 60)}')
                 tested = {x.id for c_ in b.conds for x in ast.walk(c_) if isinstance(x, ast.Name)}
                 outer = [ast.unparse(t_) for t_, _ in b.gens[:-1]]
+                p_ = getattr(b.node, '_parent', None)
+                while p_ is not None and p_ is not fn:
+                    if isinstance(p_, (ast.For, ast.AsyncFor)):
+                        outer.append(ast.unparse(p_.target))
+                    p_ = getattr(p_, '_parent', None)
                 if arg != var:
                     what = 'the variable of the enclosing loop' if arg in outer else 'something else'
                     rep.violation('R1', loc(cls.module, b.node), fq, f'drop-list filter #{idx + 1}: the element put on the drop list is not the loop variable but {what}',
@@ -162,12 +167,23 @@ def run(prog, rep):
         if fn is None:
             raise AnalysisError(f'NetworkXPropertyGraph.{name} vanished')
         fq = f'NetworkXPropertyGraph.{name}'
+        fn = nxg.method(prog, nxpg, fn)
         gvars = [n.targets[0].id for n in walk_no_nested(fn) if isinstance(n, ast.Assign) and isinstance(n.value, ast.Call)
                  and call_name(n.value) == 'extract_graph' and isinstance(n.targets[0], ast.Name)]
         rep.instance('R3', f'{fq}: works on {gvars} = storage.extract_graph(self.graph_id)')
         if not gvars:
             rep.violation('R3', loc(nxpg.module, fn), fq, 'does not work on an extracted copy', 'the query must operate on a private copy')
             continue
+        # the extracted copy and the locals that merely name it
+        gset = set(gvars)
+        grew = True
+        while grew:
+            grew = False
+            for n in walk_no_nested(fn):
+                if isinstance(n, ast.Assign) and len(n.targets) == 1 and isinstance(n.targets[0], ast.Name) and isinstance(n.value, ast.Name) and \
+                        n.value.id in gset and n.targets[0].id not in gset:
+                    gset.add(n.targets[0].id)
+                    grew = True
         g = gvars[0]
         for c in walk_no_nested(fn):
             if isinstance(c, ast.Call) and call_name(c) in ('_drop_edges_not_of_type', '_filter_nodes_by_label', '_get_first_neighbors_via',
@@ -176,7 +192,7 @@ def run(prog, rep):
                 target = ast.unparse(first) if first is not None and call_name(c) != 'neighbors' else ast.unparse(c.func.value)
                 if call_name(c) == 'neighbors':
                     target = ast.unparse(c.func.value)
-                if target != g:
+                if target not in gset:
                     rep.violation('R3', loc(nxpg.module, c), fq, norm(c, 100),
                                   f'{call_name(c)} is applied to {target} rather than to the extracted copy {g}')
 
@@ -339,10 +355,26 @@ def run(prog, rep):
     rep.instance('R5', f'_drop_edges_not_of_type: test {norm(cm[0][0]) if cm else "?"} removes {norm(rm[0]) if rm else "?"}')
     ok = bool(cm) and bool(rm)
     if ok:
+        # the removal runs under the test: directly (an if around it), or because it ranges over a local collection that
+        # was built from the edges under that test
         ifn = cm[0][0]
         while ifn is not None and not isinstance(ifn, ast.If):
             ifn = getattr(ifn, '_parent', None)
         ok = ifn is not None and any(x is rm[0] for x in ast.walk(ifn))
+        if not ok:
+            loops_ = []
+            p_ = rm[0]
+            while p_ is not None and p_ is not dr:
+                p_ = getattr(p_, '_parent', None)
+                if isinstance(p_, ast.For):
+                    loops_.append(p_)
+            bld = builders(dr)
+            for l_ in loops_:
+                if isinstance(l_.iter, ast.Name):
+                    for b_ in bld.get(l_.iter.id, []):
+                        if any(any(x is cm[0][0] for x in ast.walk(c_)) for c_ in b_.conds) and b_.gens and \
+                                any(isinstance(c_, ast.Call) and call_name(c_) == 'edges' for _, it_ in b_.gens for c_ in ast.walk(it_)):
+                            ok = True
     if not ok:
         rep.violation('R5', loc(mixin.module, dr), 'NetworkXMixin._drop_edges_not_of_type', 'drop test', 'edges whose Class differs from rel must be removed')
     wh = nxg.method(prog, nxpg, nxpg.methods['get_nodes_on_path_with_hops'])
